@@ -93,7 +93,8 @@ def strat_batch(tier):
             "bootstrap_samples": draw(st.integers(3, 25)),
             "count_ubound": draw(st.integers(1, 8)),
         }
-        items = draw(vs.batch_history(d, n_min=4, n_max=10, rows_min=10, rows_max=60, spread=2, shift=3, denom=16, p_shift=0.4))
+        # values on a dyadic grid or on a one-decimal grid (points on split boundaries are then rounding-sensitive)
+        items = draw(vs.batch_history(d, n_min=4, n_max=10, rows_min=10, rows_max=60, spread=2, shift=3, denom=draw(st.sampled_from([16, 16, 10])), p_shift=0.4))
         return {"params": p, "items": items, "seed_base": draw(vs.seed_base), "use_set_reference": draw(st.booleans())}
 
     return s()
